@@ -94,7 +94,7 @@ class UdpClient(object):
         self.conn = ClientServerConnection(addr)
         self.conn.setServerPublicKey(self.server_public_key)
         self.conn.connection_callback = callback
-        self.conn.keep_alive_interval = self.keep_alive_interval
+        self.conn.send_keep_alive_interval = self.keep_alive_interval
         self.conn.temp_connection_timeout = self.temp_connection_timeout
         self.conn.outgoing_timeout = self.outgoing_timeout
 
